@@ -21,7 +21,8 @@ DESIGN_REF = 'DESIGN.md section 3 C10'
 LEVEL = 'exploration'
 RULE = ('Cases: (library cell, connected pin subset, composition) / (implementation shape, pin subset) / (random hierarchical circuit, composition). Non-trivial iff '
         'the observed function depends on >= 2 sources or a pin is left unconnected. Distinct = digest of all case fields.')
-ASSUMPTIONS = ['the function is not compared when an open instance pin is the trailing operand of an AND/NAND primitive (reads-0 vs. pin-absent is not decided by the property)',
+ASSUMPTIONS = ['a sequential library cell whose cell name contains neither dff nor latch (DLH_X1, TLATX1, ...) is not a state element of the un-resolved circuit; if it only feeds pruned logic its disappearance is accepted',
+               'the function is not compared when an open instance pin is the trailing operand of an AND/NAND primitive (reads-0 vs. pin-absent is not decided by the property)',
                'an unconnected instance input pin reads constant 0',
                'implementations without outputs contain no gates (as in the built-in libraries)',
                'eliminate_1to1_forks is only applied when every single-reader fork is driven']
@@ -43,7 +44,7 @@ def conclude(agg):
     c = agg['counters']
     r = [f'monitor counter {k} is zero' for k in ('lib_cells', 'lib_instances', 'shape_cases', 'hier_cases', 'lane_checks', 'name_checks', 'op/copy', 'op/pickle',
                                                   'op/eliminate', 'op/resolve', 'shape/output_read_internally', 'shape/ignored_input', 'shape/empty', 'shape/multi_output',
-                                                  'unconnected_input_pins', 'unconnected_output_pins', 'sequential_cells')
+                                                  'unconnected_input_pins', 'unconnected_output_pins', 'sequential_cells', 'directed_dead_reader_before_multi_output_driver')
          if c.get(k, 0) == 0]
     if len(agg['sets'].get('libs', ())) < 5:
         r.append('not all five libraries visited')
@@ -84,6 +85,10 @@ def compare(ctx, case, c, flat, label, removed_nodes, rerun_without=None):
     exp_names = expected_names(flat)
     got_names = [n.name for n in c.s_nodes]
     ctx.count('name_checks')
+    pruned_hidden = [n for n in flat.get('hidden_state', []) if n not in got_names]
+    if pruned_hidden:
+        ctx.count('hidden_state_cells_pruned', len(pruned_hidden))
+        exp_names = [n for n in exp_names if n not in pruned_hidden]
     if sorted(got_names) != sorted(exp_names):
         ctx.violation('port-state-names', f'{label}: ports/state elements after the transformation are {got_names}, the description has {exp_names}', case)
         return False
@@ -113,6 +118,9 @@ def compare(ctx, case, c, flat, label, removed_nodes, rerun_without=None):
     mask = lanes_mask(n)
     val = G.eval_net(flat, assign, mask)
     exp = G.observed(flat, val)
+    for nm in pruned_hidden:          # unobservable: its outputs only fed pruned logic
+        exp.pop(('ff', nm), None)
+    srcs = [s for s in srcs if s not in pruned_hidden]
     row = {nm: i for i, nm in enumerate(got_names)}
     if not exp or len(c.lines) == 0:
         ctx.count('nothing_observable')
@@ -314,6 +322,23 @@ def hier_case(ctx, rng, idx):
             n = rng.choice([2, 3, 4]) if fam in G.VAR_FAMS else (G.FIX_FAMS.get(fam, 1))
             hnet['items'].append({'name': f'g{k}', 'kind': (f'{fam}{n}' if fam in G.VAR_FAMS else {'INV': 'inv', 'BUF': 'buf'}.get(fam, fam)).lower(), 'fam': fam, 'ins': [rng.choice(sigs) for _ in range(n)], 'out': f'g{k}'})
             sigs.append(f'g{k}')
+    dead_first = None
+    if rng.random() < 0.2:
+        # directed shape: a multi-output cell M whose first output feeds only a cell D with all outputs open (dead logic that resolve
+        # prunes) while another output of M is observed; D is created before M, so D is resolved while M is still a library cell
+        multi = [cn for cn in HIER_CELLS[libname] if len(cells[cn]['outs']) >= 2 and not any(H.kind_to_fam(kk)[1] for _, kk, _ in cells[cn]['stmts'])]
+        single = [cn for cn in HIER_CELLS[libname] if len(cells[cn]['outs']) == 1 and cells[cn]['ins'] and not any(H.kind_to_fam(kk)[1] for _, kk, _ in cells[cn]['stmts'])]
+        if multi and single:
+            k = len(hnet['items'])
+            mc, dc = rng.choice(multi), rng.choice(single)
+            M = {'name': f'u{k}', 'lib': libname, 'cell': mc, 'in': {p: rng.choice(sigs) for p in cells[mc]['ins']}, 'out': {p: True for p in cells[mc]['outs']}}
+            o0, o1 = cells[mc]['outs'][0], cells[mc]['outs'][1]
+            D = {'name': f'u{k + 1}', 'lib': libname, 'cell': dc, 'in': {p: (f'u{k}~{o0}' if i == 0 else rng.choice(sigs)) for i, p in enumerate(cells[dc]['ins'])},
+                 'out': {p: False for p in cells[dc]['outs']}}
+            hnet['items'] += [M, D]
+            sigs.append(f'u{k}~{o1}')
+            hnet['outputs'].append({'name': 'od', 'sig': f'u{k}~{o1}'})
+            dead_first = (k + 1, k)
     cand = [s for s in sigs if s not in hnet['inputs']] or sigs
     for j in range(rng.randint(1, 4)):
         hnet['outputs'].append({'name': f'o{j}', 'sig': rng.choice(cand[-6:])})
@@ -322,7 +347,15 @@ def hier_case(ctx, rng, idx):
         ops.append(rng.choice(['copy', 'pickle', 'eliminate', 'resolve']))
     if 'resolve' not in ops:
         ops.insert(rng.randint(0, len(ops)), 'resolve')
-    case = {'kind': 'hier', 'hnet': hnet, 'ops': ops, 'lib': libname}
+    order = list(range(len(hnet['items'])))
+    if rng.random() < 0.6:
+        rng.shuffle(order)          # node creation order != topological order: resolve meets readers before drivers
+    if dead_first is not None:
+        d, m_ = dead_first
+        order.remove(d)
+        order.insert(order.index(m_), d)
+        ctx.count('directed_dead_reader_before_multi_output_driver')
+    case = {'kind': 'hier', 'hnet': hnet, 'ops': ops, 'lib': libname, 'node_order': order}
     hier_check(ctx, case, idx)
 
 
@@ -330,13 +363,12 @@ def hier_check(ctx, case, idx):
     hnet, ops, libname = case['hnet'], case['ops'], case['lib']
     ctx.count('hier_cases')
     with ctx.guard('transformation-raises', case):
-        c, flat = H.build_host(hnet, [libname])
+        c, flat = H.build_host(hnet, [libname], node_order=case.get('node_order'))
+        # state elements are listed in node-index order: the description's order follows the creation order
+        pos = {hnet['items'][k]['name']: i for i, k in enumerate(case.get('node_order') or range(len(hnet['items'])))}
+        flat['ffs'].sort(key=lambda ff: pos[ff['name']])
         c2, removed = apply_ops(c, ops, [libname], ctx)
-
-        def rerun():
-            c3, _ = H.build_host(hnet, [libname])
-            c3, rem = apply_ops(c3, [o for o in ops if o != 'eliminate'], [libname], ctx)
-            return [n.name for n in c3.s_nodes] == expected_names(flat) or rem
+        rerun = None
         compare(ctx, case, c2, flat, f'hierarchical circuit ops={ops} lib={libname} items={[(it.get("cell") or it["kind"]) for it in hnet["items"]]}', removed, rerun)
     ctx.case(case, True, key=case)
     if idx < 2:
